@@ -379,22 +379,152 @@ Proof. intros HC. unfold checksum. destruct (pN =? 0); [assumption|apply sum_blo
 Lemma dbc_samebut s s' : SameBut s s' -> forall p, dbc s' p = dbc s p.
 Proof. intros H p. unfold dbc, db_page_chk. destruct H as [_ [_ [_ [_ [_ [E _]]]]]]. rewrite E. reflexivity. Qed.
 
-(* CommitJournal: the reported checksum is the from-scratch XOR of the cached per-page
-   checksums of pages 1..commit (lock page excluded) *)
+(* ---- the page loop of CommitJournal: what it does to the checksum cache ---- *)
+Definition file_h (s : st) (p : N) : N := match file_pg s p with Some q => pg_h q | None => 0 end.
+(* the per-page checksum CommitJournal works with: the cached one, or for a page inside the grown database
+   that never passed through WriteDatabaseAt the checksum of what the file holds *)
+Definition jc (s : st) (p : N) : N := if unwritten s p then file_h s p else dbc s p.
+
+(* everything but the two checksum caches *)
+Definition SameNC (s s' : st) : Prop :=
+  writeable s' = writeable s /\ lockpg s' = lockpg s /\ dbfile s' = dbfile s /\ pageN s' = pageN s /\
+  wal_mode s' = wal_mode s /\ wal_chk s' = wal_chk s /\
+  wal_latest s' = wal_latest s /\ wal_file s' = wal_file s /\ dirty s' = dirty s /\
+  txid s' = txid s /\ chk s' = chk s /\ ltxdir s' = ltxdir s.
+Lemma samenc_refl s : SameNC s s.
+Proof. unfold SameNC. repeat split; reflexivity. Qed.
+Lemma samenc_trans a b c : SameNC a b -> SameNC b c -> SameNC a c.
+Proof. unfold SameNC. intuition congruence. Qed.
+Lemma samenc_set s p v : SameNC s (set_page_chk s p v).
+Proof. unfold SameNC. repeat split; reflexivity. Qed.
+Lemma unwritten_same s s' p : SameNC s s' -> dbc s' p = dbc s p -> unwritten s' p = unwritten s p.
+Proof. intros H Hd. unfold unwritten. fold (dbc s' p) (dbc s p). destruct H as [_ [_ [_ [-> _]]]]. rewrite Hd. reflexivity. Qed.
+Lemma samenc_file_h s s' p : SameNC s s' -> file_h s' p = file_h s p.
+Proof. intros H. unfold file_h, file_pg. destruct H as [_ [_ [-> _]]]. reflexivity. Qed.
+Lemma unwritten_pos s p : unwritten s p = true -> 1 <= p.
+Proof. unfold unwritten. intros H. apply andb_true_iff in H. destruct H as [H _]. apply N.ltb_lt in H. lia. Qed.
+
+Lemma upfrom_seqN : forall n a, upfrom a n = seqN a n.
+Proof. induction n as [|n IH]; intros a; cbn [upfrom seqN]; [reflexivity|]. rewrite IH. reflexivity. Qed.
+
+Lemma journal_pages_cache commit : forall pgnos s r s2,
+  CacheOK s -> LockZero s -> 1 <= lockpg s ->
+  journal_pages s commit pgnos = (r, s2) ->
+  CacheOK s2 /\ LockZero s2 /\ SameNC s s2 /\
+  (forall p, 1 <= p -> ~ In p pgnos -> dbc s2 p = dbc s p) /\
+  (forall p, 1 <= p -> unwritten s p = false -> dbc s2 p = dbc s p) /\
+  (r <> None -> forall p, In p pgnos -> p <> lockpg s -> unwritten s p = true -> dbc s2 p = file_h s p).
+Proof.
+  induction pgnos as [|p r0 IH]; intros s r s2 HC HL Hlk H; cbn [journal_pages] in H.
+  - inversion H; subst. repeat (split; [assumption || apply samenc_refl|]).
+    split; [reflexivity|]. split; [reflexivity|]. intros _ p [].
+  - destruct (N.eqb_spec p (lockpg s)) as [El|Enl].
+    + destruct (IH s r s2 HC HL Hlk H) as [A1 [A2 [A3 [A4 [A5 A6]]]]].
+      repeat (split; [assumption|]). split.
+      { intros q Hq Hn. apply A4; [assumption|]. intros Hin. apply Hn. right. assumption. }
+      split; [assumption|].
+      intros Hr q [E|Hin] Hnl Hu; [congruence|]. apply A6; assumption.
+    + destruct (file_pg s p) as [q0|] eqn:Ef.
+      2:{ inversion H; subst. repeat (split; [assumption || apply samenc_refl|]).
+          split; [reflexivity|]. split; [reflexivity|]. intros Hr. congruence. }
+      set (s1 := if unwritten s p then set_page_chk s p (pg_h q0) else s) in *.
+      assert (SameNC s s1) as HS1 by (unfold s1; destruct (unwritten s p); [apply samenc_set|apply samenc_refl]).
+      assert (CacheOK s1) as HC1.
+      { unfold s1. destruct (unwritten s p) eqn:Eu; [|assumption].
+        apply set_page_chk_cacheok; [apply (unwritten_pos s); assumption|assumption]. }
+      assert (Hd1 : forall q, 1 <= q -> dbc s1 q = if (q =? p) && unwritten s p then pg_h q0 else dbc s q).
+      { intros q Hq. unfold s1. destruct (unwritten s p) eqn:Eu; [|rewrite andb_false_r; reflexivity].
+        rewrite dbc_set by (assumption || (apply (unwritten_pos s); assumption)). rewrite andb_true_r.
+        destruct (q =? p); [|reflexivity]. destruct (N.eqb_spec p (lockpg s)); [contradiction|reflexivity]. }
+      assert (lockpg s1 = lockpg s) as El1 by (destruct HS1 as [_ [E _]]; exact E).
+      assert (LockZero s1) as HL1.
+      { unfold LockZero. rewrite El1, Hd1 by assumption.
+        destruct (N.eqb_spec (lockpg s) p) as [E|_]; [congruence|]. cbn [andb]. exact HL. }
+      destruct (page_chk s1 p commit []) as [c ok].
+      destruct (ok && (c =? pg_h q0)).
+      2:{ inversion H; subst. split; [assumption|]. split; [assumption|]. split; [assumption|].
+          split. { intros q Hq Hn. rewrite Hd1 by assumption. destruct (N.eqb_spec q p) as [->|_]; [|reflexivity].
+                   exfalso. apply Hn. left. reflexivity. }
+          split. { intros q Hq Hu. rewrite Hd1 by assumption. destruct (N.eqb_spec q p) as [->|_]; [|reflexivity].
+                   rewrite Hu. reflexivity. }
+          intros Hr. congruence. }
+      destruct (journal_pages s1 commit r0) as [r1 s2'] eqn:Ej.
+      assert (1 <= lockpg s1) as Hlk1 by (rewrite El1; assumption).
+      destruct (IH s1 r1 s2' HC1 HL1 Hlk1 Ej) as [A1 [A2 [A3 [A4 [A5 A6]]]]].
+      assert (s2 = s2') as -> by (destruct r1; inversion H; reflexivity).
+      split; [assumption|]. split; [assumption|]. split; [eapply samenc_trans; eassumption|].
+      split.
+      { intros q Hq Hn. rewrite A4; [|assumption|intros Hin; apply Hn; right; assumption].
+        rewrite Hd1 by assumption. destruct (N.eqb_spec q p) as [->|_]; [|reflexivity].
+        exfalso. apply Hn. left. reflexivity. }
+      assert (Hu1 : forall q, 1 <= q -> (q <> p \/ unwritten s p = false) -> unwritten s1 q = unwritten s q).
+      { intros q Hq Hc. apply unwritten_same; [assumption|]. rewrite Hd1 by assumption.
+        destruct (N.eqb_spec q p) as [->|_]; [|reflexivity]. destruct Hc as [Hc|Hc]; [congruence|rewrite Hc; reflexivity]. }
+      split.
+      { intros q Hq Hu. rewrite A5; [|assumption|].
+        - rewrite Hd1 by assumption. destruct (N.eqb_spec q p) as [->|_]; [|reflexivity]. rewrite Hu. reflexivity.
+        - rewrite Hu1; [assumption|assumption|]. destruct (N.eq_dec q p) as [->|Hne]; [right; assumption|left; assumption]. }
+      intros Hr q Hin Hnl Hu.
+      assert (r1 <> None) as Hr1 by (destruct r1; [discriminate|inversion H; subst; congruence]).
+      assert (Hq1 : 1 <= q) by (apply (unwritten_pos s); assumption).
+      destruct (in_dec N.eq_dec q r0) as [Hin0|Hnin0].
+      * destruct (unwritten s1 q) eqn:Eu1.
+        -- rewrite A6; [|assumption|assumption|rewrite El1; assumption|assumption]. apply samenc_file_h. assumption.
+        -- rewrite A5 by assumption. rewrite Hd1 by assumption.
+           destruct (N.eqb_spec q p) as [->|Hne].
+           ++ rewrite Hu. cbn [andb]. unfold file_h. rewrite Ef. reflexivity.
+           ++ rewrite Hu1 in Eu1; [congruence|assumption|left; assumption].
+      * destruct Hin as [E|Hin]; [subst q|contradiction].
+        rewrite A4; [|apply (unwritten_pos s); assumption|assumption].
+        rewrite Hd1 by (apply (unwritten_pos s); assumption). rewrite N.eqb_refl, Hu. cbn [andb].
+        unfold file_h. rewrite Ef. reflexivity.
+Qed.
+
+Lemma journal_pages_samenc commit : forall pgnos s r s2, journal_pages s commit pgnos = (r, s2) -> SameNC s s2.
+Proof.
+  induction pgnos as [|p r0 IH]; intros s r s2 H; cbn [journal_pages] in H.
+  - inversion H; subst. apply samenc_refl.
+  - destruct (p =? lockpg s); [eapply IH; eassumption|].
+    destruct (file_pg s p) as [q0|]; [|inversion H; subst; apply samenc_refl].
+    set (s1 := if unwritten s p then set_page_chk s p (pg_h q0) else s) in *.
+    assert (SameNC s s1) as HS1 by (unfold s1; destruct (unwritten s p); [apply samenc_set|apply samenc_refl]).
+    destruct (page_chk s1 p commit []) as [c ok].
+    destruct (ok && (c =? pg_h q0)); [|inversion H; subst; assumption].
+    destruct (journal_pages s1 commit r0) as [r1 s2'] eqn:Ej.
+    assert (s2 = s2') as -> by (destruct r1; inversion H; reflexivity).
+    eapply samenc_trans; [eassumption|]. eapply IH; eassumption.
+Qed.
+
+Lemma journal_pgnos_unwritten s commit p : unwritten s p = true -> p <= commit -> In p (journal_pgnos s commit).
+Proof.
+  intros Hu Hp. unfold journal_pgnos. apply in_or_app. right. rewrite upfrom_seqN. apply seqN_in.
+  unfold unwritten in Hu. apply andb_true_iff in Hu. destruct Hu as [Hu _]. apply N.ltb_lt in Hu. lia.
+Qed.
+
+(* CommitJournal: the reported checksum is the from-scratch XOR of the per-page checksums of pages 1..commit
+   (lock page excluded): the cached ones, and for pages the transaction never wrote what the file holds *)
 Theorem commit_journal_checksum s commit s' :
   CacheOK s -> LockZero s -> 1 <= lockpg s -> op_commit_journal s commit = (Done, s') ->
-  chk s' = scratch (fun p => if p =? lockpg s then 0 else dbc s p) commit /\
+  chk s' = scratch (fun p => if p =? lockpg s then 0 else jc s p) commit /\
   txid s' = txid s + 1 /\ pageN s' = commit /\ dirty s' = [] /\
   CacheOK s' /\ LockZero s' /\ (forall p, commit < p -> dbc s' p = 0) /\
-  (forall p, 1 <= p <= commit -> dbc s' p = dbc s p).
+  (forall p, 1 <= p <= commit -> p <> lockpg s -> dbc s' p = jc s p).
 Proof.
   intros HC HL Hlk H. unfold op_commit_journal in H.
   destruct (writeable s); cbn [negb] in H; [|discriminate].
   set (s0 := with_wal s [] (wal_latest s) (wal_file s)) in *.
-  destruct (journal_pages s0 commit (filter (fun p => p <=? commit) (dirty s))) as [pages|]; [|discriminate].
   assert (CacheOK s0) as HC0 by exact HC. assert (LockZero s0) as HL0 by exact HL.
-  pose proof (clear_after_commit_spec (length (chk_pages s0)) s0 commit ltac:(lia) HC0 HL0 Hlk) as Hc.
-  set (s1 := clear_after_commit s0 (length (chk_pages s0)) commit) in *. cbn zeta in Hc.
+  destruct (journal_pages s0 commit (journal_pgnos s commit)) as [[pages|] sj] eqn:Ej; [|discriminate].
+  destruct (journal_pages_cache commit _ s0 _ sj HC0 HL0 Hlk Ej) as [HCj [HLj [HSj [_ [J5 J6]]]]].
+  assert (lockpg sj = lockpg s) as Elj by (destruct HSj as [_ [E _]]; exact E).
+  assert (wal_chk sj = []) as Ewj by (destruct HSj as [_ [_ [_ [_ [_ [E _]]]]]]; exact E).
+  assert (Hdj : forall p, 1 <= p -> p <= commit -> p <> lockpg s -> dbc sj p = jc s p).
+  { intros p Hp Hpc Hnl. unfold jc. change (unwritten s p) with (unwritten s0 p).
+    destruct (unwritten s0 p) eqn:Eu.
+    - rewrite J6; [reflexivity|discriminate|apply journal_pgnos_unwritten; assumption|assumption|assumption].
+    - rewrite J5 by assumption. reflexivity. }
+  pose proof (clear_after_commit_spec (length (chk_pages sj)) sj commit ltac:(lia) HCj HLj ltac:(lia)) as Hc.
+  set (s1 := clear_after_commit sj (length (chk_pages sj)) commit) in *. cbn zeta in Hc.
   destruct Hc as [C1 [L1 [E1 [W1 D1]]]].
   pose proof (checksum_same s1 commit []) as HS. pose proof (checksum_cacheok s1 commit [] C1) as HC2.
   destruct (checksum s1 commit []) as [[post|] s2] eqn:Eck; [|discriminate]. cbn [snd] in HS, HC2.
@@ -409,9 +539,9 @@ Proof.
   cbn [chk txid pageN dirty with_dirty with_pos].
   split.
   { rewrite Hpost. unfold scratch. f_equal. f_equal. apply map_ext_in. intros p Hp. apply seqN_in in Hp.
-    rewrite eff_nowal by (try exact W1; lia). rewrite E1. cbn [lockpg with_wal s0].
-    destruct (p =? lockpg s); [reflexivity|]. rewrite D1 by lia.
-    destruct (N.ltb_spec commit p); [lia|reflexivity]. }
+    rewrite eff_nowal by (try (rewrite W1; exact Ewj); lia). rewrite E1, Elj.
+    destruct (N.eqb_spec p (lockpg s)) as [_|Hnl]; [reflexivity|]. rewrite D1 by lia.
+    destruct (N.ltb_spec commit p); [lia|]. apply Hdj; lia. }
   split; [reflexivity|]. split; [reflexivity|]. split; [reflexivity|].
   split; [exact HC2|].
   split. { change (dbc s2 (lockpg s2) = 0). rewrite Hd2, El2. exact L1. }
@@ -419,8 +549,19 @@ Proof.
   - intros p Hp. change (dbc s2 p = 0). rewrite Hd2.
     destruct (N.le_gt_cases 1 p) as [H1|H0]; [|lia]. rewrite D1 by assumption.
     destruct (N.ltb_spec commit p); [reflexivity|lia].
-  - intros p Hp. change (dbc s2 p = dbc s p). rewrite Hd2, D1 by lia.
-    destruct (N.ltb_spec commit p); [lia|reflexivity].
+  - intros p Hp Hnl. change (dbc s2 p = jc s p). rewrite Hd2, D1 by lia.
+    destruct (N.ltb_spec commit p); [lia|]. apply Hdj; lia.
+Qed.
+
+(* ... in particular a page of the grown database that never passed through WriteDatabaseAt is counted with the
+   checksum of what the file holds, and is cached from then on *)
+Corollary commit_journal_unwritten s commit s' :
+  CacheOK s -> LockZero s -> 1 <= lockpg s -> op_commit_journal s commit = (Done, s') ->
+  forall p, unwritten s p = true -> p <= commit -> p <> lockpg s -> dbc s' p = file_h s p.
+Proof.
+  intros HC HL Hlk H p Hu Hp Hnl.
+  destruct (commit_journal_checksum s commit s' HC HL Hlk H) as [_ [_ [_ [_ [_ [_ [_ Hd]]]]]]].
+  rewrite Hd; [|split; [apply (unwritten_pos s); assumption|assumption]|assumption]. unfold jc. rewrite Hu. reflexivity.
 Qed.
 
 (* ------------------------------------------------------------------ *)
